@@ -628,7 +628,37 @@ func run(e *core.Env) {
 			w.checkPeersPresent(after, nil)
 			w.checkAlways(after)
 
-		case 5: // time passes
+		case 5: // time passes - or (wave 15) the table is only looked at
+			if tp.Chance(1, 3) {
+				// Printing the table (the dashboard page), asking for possible paths, looking
+				// something up: none of these is an operation on the table. Its entries and
+				// their order are what they were.
+				what := ""
+				switch tp.Intn(3) {
+				case 0:
+					_ = w.rt.Format()
+					what = "Format()"
+				case 1:
+					d := w.dests[tp.Intn(len(w.dests))]
+					_ = w.rt.LookupPossiblePaths(d, 1+tp.Intn(8), m.MaxAddrDistance(), tp.Chance(1, 2), nil)
+					what = fmt.Sprintf("LookupPossiblePaths(%s)", d)
+				default:
+					d := w.dests[tp.Intn(len(w.dests))]
+					_, _ = w.rt.LookupNearestRoute(d)
+					_, _ = w.rt.LookupNearest(d)
+					what = fmt.Sprintf("LookupNearest(%s)", d)
+				}
+				w.afterOp = what
+				w.opsTrace = append(w.opsTrace, what)
+				e.Ev("look", uint64(len(what)))
+				e.Probe("table_only_looked_at")
+				after := w.rt.VerifEntries()
+				if !reflect.DeepEqual(before, after) {
+					w.fail("changed-by-looking", "%s changed the table (entries or their order)", what)
+				}
+				w.checkAlways(after)
+				continue
+			}
 			d := []time.Duration{time.Second, time.Minute, 9 * time.Minute, 11 * time.Minute, time.Hour, 3 * time.Hour, 25 * time.Hour}[tp.Intn(7)]
 			time.Sleep(d)
 			w.afterOp = fmt.Sprintf("sleep(%v)", d)
